@@ -10,8 +10,7 @@
     Termination under a real scheduler is not a model notion (blocking is a disabled step): the theorems
     say that nothing is stuck and that nothing is left waiting once the loop is over; the wall-clock
     bound is measured by obs_fault.  Partial for scheduling/timing.
-
-    Hypothesis [g_kind g = Ring \/ g_putfail0 g = false]: see Props/C01.v (flow buffer: one excluded step). *)
+ *)
 From Coq Require Import List NArith ZArith Bool.
 Require Import RV.Model.Base RV.Model.PipeQueue RV.Model.Pipe RV.Model.PipeLts.
 Require Import RV.Proofs.PipeLtsBasics RV.Proofs.PipeExclusive RV.Proofs.PipeRouting RV.Proofs.PipeLifecycle RV.Proofs.PipeNotStuck.
@@ -27,22 +26,21 @@ Definition server_ok (g : config) : Prop := forall c, cmd_served_ok (g_r2ps g) (
     (its waiters released with ErrDoCacheAborted), the state is closing/closed, an error is latched,
     and the counter equals the number of counts held (so it is exact, not leaked). *)
 Theorem C04_drain : forall g sched s,
-  g_kind g = Ring \/ g_putfail0 g = false ->
   prun g sched (p_init g) = Some s -> drained s ->
   (forall t, quiet_c (p_calls s t)) /\ (forall t, quiet_k (p_closers s t)) /\
   p_cache_closed s = true /\ st_closed s /\ p_conn s = false /\ p_err s <> None /\ p_waits s = hsum s.
-Proof. intros g sched s Hg H Hd. exact (drain g Hg sched s H Hd). Qed.
+Proof. intros g sched s H Hd. exact (drain g sched s H Hd). Qed.
 Print Assumptions C04_drain.
 
 (** … and every call that has returned holds, for each of its commands, the server's reply to that very
     command or an error — never a hole, never another call's reply (C01_routing_partial, repeated here
     for the failure case): *)
 Theorem C04_results_are_replies_or_errors : forall g sched s t,
-  server_ok g -> g_ver g <> 6%Z -> (g_kind g = Ring \/ g_putfail0 g = false) ->
+  server_ok g -> g_ver g <> 6%Z ->
   prun g sched (p_init g) = Some s ->
   exists k es, k_res (p_calls s t) =
                map RMsg (map (result_of (g_srv g)) (firstn k (k_cmds (p_calls s t)))) ++ map RErr es.
-Proof. intros g sched s t Hs Hv Hg H. exact (proj1 (routing g Hs Hv Hg sched s t H)). Qed.
+Proof. intros g sched s t Hs Hv H. exact (proj1 (routing g Hs Hv sched s t H)). Qed.
 Print Assumptions C04_results_are_replies_or_errors.
 
 (** While the clean-up loop runs and the counter is not zero, some thread other than the loop's idle
@@ -51,21 +49,20 @@ Print Assumptions C04_results_are_replies_or_errors.
     the sacrificial PING) or has its slot in the queue, where the loop — or the writer, as long as it
     has not exited — reaches it. *)
 Theorem C04_not_stuck : forall g sched s,
-  server_ok g -> g_ver g <> 6%Z -> (g_kind g = Ring \/ g_putfail0 g = false) -> (0 < g_cap g)%nat ->
+  server_ok g -> g_ver g <> 6%Z -> (0 < g_cap g)%nat ->
   prun g sched (p_init g) = Some s -> p_b s = BClean -> (0 < p_waits s)%nat ->
   exists l s', progress_label l = true /\ pstep g s l = Some s'.
-Proof. intros g sched s Hs Hv Hg Hc H Hb Hw. exact (not_stuck_reach g Hs Hv Hg Hc sched s H Hb Hw). Qed.
+Proof. intros g sched s Hs Hv Hc H Hb Hw. exact (not_stuck_reach g Hs Hv Hc sched s H Hb Hw). Qed.
 Print Assumptions C04_not_stuck.
 
 (** After a Close has passed its compare-and-swap on the state word: the state is closing/closed, an
     error is latched, and a caller that loads the state goes to the error path (it neither queues nor
     touches the connection) … *)
 Theorem C04_after_close : forall g sched s k,
-  g_kind g = Ring \/ g_putfail0 g = false ->
   prun g sched (p_init g) = Some s -> closer_past_cas (p_closers s k) ->
   st_closed s /\ p_err s <> None /\
   forall t w s', k_pc (p_calls s t) = PLoad w -> pstep g s (LLoad t) = Some s' -> k_pc (p_calls s' t) = PErr.
-Proof. intros g sched s k Hg H Hk. exact (after_close g Hg sched s k H Hk). Qed.
+Proof. intros g sched s k H Hk. exact (after_close g sched s k H Hk). Qed.
 Print Assumptions C04_after_close.
 
 (** … where it returns the latched error for every command; the latched error is ErrClosing when Close
@@ -91,7 +88,7 @@ Print Assumptions C04_latched_error_is_stable.
     reaches waits = 0 and state 4; a later call gets the latched error. *)
 Definition echo_srv : server := mkSrv (fun c => Msg 36 [c_id c] 0 []) (fun c => []) (fun c => pong_msg).
 Definition plain (id : N) : cmd := mkCmd id 2 false false false false false false.
-Definition cfg : config := mkCfg Ring 4 false 7 echo_srv false.
+Definition cfg : config := mkCfg Ring 4 false 7 echo_srv.
 Definition fail_sched : list label :=
   [LCall 1 [plain 10] false CtxCancel; LIncr 1; LLoad 1; LBg 1; LPut 1;
    LCall 2 [plain 20; plain 21] true CtxBg; LIncr 2; LLoad 2; LPut 2;
